@@ -55,7 +55,9 @@ def gen_file(rng, n_records=None, n_logs=None, kind=None):
         raw = logs.gen_event(rng, strings, [k for k in ('p', 'pid', 'send', 'sub') if rng.random() < 0.7])
         raw['tid'] = rng.choice(tids[:4])
         if 'p' in raw:
-            raw['p'] = strings.idx(rng.choice(('launchd', 'Safari', '123', 'tccd')))
+            # (long names that begin alike: a name is compared as a whole, not up to where a kernel field or a column ends)
+            raw['p'] = strings.idx(rng.choice(('launchd', 'Safari', '123', 'tccd', 'com.apple.WebKit', 'com.apple.WebKit.WebContent',
+                                               'com.apple.WebKit.Networking', 'a-process-name-longer-than-the-map-field', 'Safari ')))
         if 'pid' in raw:
             raw['pid'] = rng.choice((1, 123, 456, 0))
         raws.append(raw)
@@ -259,6 +261,33 @@ def check_logs(res, f, rng):
         res.count('logs_selected', len(want))
 
 
+def check_log_near_misses(res, f, rng):
+    """EVERY near miss of EVERY process name / pid of the dump's log records as the process filter (no thread filter): the
+    name cut at every length a kernel structure or a column would cut it, other cases, blanks, the pid in other notations -
+    each selects exactly the records that carry that very text as their name or canonical pid."""
+    from pykdebugparser.pykdebugparser import PyKdebugParser
+    inv = f['strings']
+    recs = [(inv[raw['p']] if 'p' in raw else '', raw.get('pid', 0), raw) for raw in f['logs']]
+    values = set()
+    for name, pid, _ in recs:
+        values.update(domain.near_miss_spellings(pid, name))
+    for proc in sorted(values):
+        p = PyKdebugParser()
+        p.filter_process = proc
+        try:
+            got = [(g.composed_message, g.process, g.process_identifier) for g in p.os_log_events(io.BytesIO(f['data']))]
+        except Exception as x:
+            res.violation(f'c12-logs-raise-{core.exc_name(x)}', f'process={proc!r}: {x!r}', {'file': f['data'], 'config': {'process': proc}})
+            return
+        want = [(inv[raw['cm']], name, pid) for name, pid, raw in recs if proc == name or proc == str(pid)]
+        res.count('log_listings_under_near_miss_filters')
+        if got != want:
+            res.violation('c12-log-filter', f'under process={proc!r} (a near miss of a process of the dump): {len(got)} log records '
+                          f'listed {sorted({g[1] for g in got})[:4]}, exactly {len(want)} carry that name or pid',
+                          {'file': f['data'], 'config': {'tid': None, 'process': proc}})
+            return
+
+
 def check_cli(res, f, cfg, tmpdir):
     from click.testing import CliRunner
     from pykdebugparser.__main__ import cli
@@ -353,6 +382,8 @@ def run(ctx):
                 subs = [x for x in range(0, 0x10000) if x >> 8 != missing][::rng.choice((1, 3))]
                 check_events(res, f, {'tid': None, 'classes': [], 'subs': subs})
             check_logs(res, f, rng)        # a version-2 dump holds no log records: its log listing is empty
+            if i % 4 == 1 and f.get('logs'):
+                check_log_near_misses(res, f, rng)
             if i % 8 == 0:
                 check_cli_logs(res, f, rng, tmpdir)
             recent.append(f)
